@@ -143,6 +143,13 @@ def make_tests(rng, sb, info, ents_by_mode, quick):
         tests.append(Test(["-perm", "-" + spell], lambda e, m, M=M: stat.S_IMODE(e.rec.st_mode) & M == M, "perm-symbolic"))
         tests.append(Test(["-perm", "/" + spell], lambda e, m, M=M: stat.S_IMODE(e.rec.st_mode) & M != 0, "perm-symbolic"))
         tests.append(Test(["-perm", spell], lambda e, m, M=M: stat.S_IMODE(e.rec.st_mode) == M, "perm-symbolic"))
+    # clauses without who letters: all of u, g, o - and, unlike chmod(1), NOT filtered through the caller's umask (the runs below
+    # are made under umask 027, which would mask the group's w and everything of 'other')
+    for spell, M in (("+w", 0o222), ("+x", 0o111), ("+r", 0o444), ("=rw", 0o666), ("+rwx", 0o777), ("=x", 0o111), ("+w,u+x", 0o322), ("=r,+w", 0o666)):
+        tests.append(Test(["-perm", "-" + spell], lambda e, m, M=M: stat.S_IMODE(e.rec.st_mode) & M == M, "perm-symbolic-no-who"))
+        tests.append(Test(["-perm", "/" + spell], lambda e, m, M=M: stat.S_IMODE(e.rec.st_mode) & M != 0, "perm-symbolic-no-who"))
+        if not spell.startswith("+"):
+            tests.append(Test(["-perm", spell], lambda e, m, M=M: stat.S_IMODE(e.rec.st_mode) == M, "perm-symbolic-no-who"))
     # clauses that depend on earlier clauses (copy, removal, re-assignment): chmod(1) semantics, octal equivalent known
     for spell, M in (("u=rw,g=u", 0o660), ("a=rwx,o-w", 0o775), ("u=rwx,u=r", 0o400), ("a=w,ug-w", 0o002), ("u=rwx,g=u,o=g", 0o777), ("a=rx,u+w", 0o755),
                      ("u=rwx,go=u-w", 0o755), ("a+rwx,a-x", 0o666), ("u=rw,go=", 0o600), ("ug=rw,o=u-w", 0o664), ("a=r,u+w,g+w", 0o664),
@@ -271,14 +278,24 @@ def worker(job):
         cases = []
         meta = {}
         cid = 0
-        for mode in "PHL":
+        # (-follow anywhere in the expression selects the -L records whatever -P / -H said before)
+        for mode, lead, opt in (("P", ["-P"], []), ("H", ["-H"], []), ("L", ["-L"], []), ("L", ["-H"], ["-follow"]), ("L", [], ["-follow"]),
+                                ("L", ["-P"], ["-follow"])):
             batches = [tests[b:b + BATCH] for b in range(0, len(tests), BATCH)] + ordered
+            if opt:
+                batches = batches[::3]
             for batch in batches:
                 cid += 1
-                args = ["find", "-" + mode] + roots + ["-sorted"] + label_args(batch)
+                args = ["find"] + lead + roots + opt + ["-sorted"] + label_args(batch)
+                if opt:
+                    st.inc("batches_with_follow_option_after_" + (lead[0] if lead else "nothing"))
                 cases.append(("c%d" % cid, args))
                 meta["c%d" % cid] = (mode, batch, args)
-        res = common.run_find_inproc(cases, sb, sb)
+        old_umask = os.umask(0o027)
+        try:
+            res = common.run_find_inproc(cases, sb, sb)
+        finally:
+            os.umask(old_umask)
         # binary sample
         bin_ids = rng.sample(sorted(meta), min(len(meta), 6 if quick else 60))
         for c, (mode, batch, args) in meta.items():
